@@ -61,8 +61,8 @@ template <class F> static bool guarded(const std::string& tag, F f) {
 struct ParseErr { char sev; unsigned int code; std::string dom; XMLFileLoc line, col; };
 
 struct XDomP : public XercesDOMParser, public ErrorHandler, public EntityResolver {
-    std::vector<ParseErr> errs; unsigned long nF, nE, nW;
-    XDomP() : XercesDOMParser(0, XMLPlatformUtils::fgMemoryManager, 0), nF(0), nE(0), nW(0) { setErrorHandler(this); setEntityResolver(this); }
+    std::vector<ParseErr> errs; unsigned long nF, nE, nW; const Case* cs; unsigned long served;
+    XDomP() : XercesDOMParser(0, XMLPlatformUtils::fgMemoryManager, 0), nF(0), nE(0), nW(0), cs(0), served(0) { setErrorHandler(this); setEntityResolver(this); }
     void error(const unsigned int code, const XMLCh* const dom, const XMLErrorReporter::ErrTypes t, const XMLCh* const txt,
                const XMLCh* const sys, const XMLCh* const pub, const XMLFileLoc l, const XMLFileLoc c) {
         ParseErr e; e.sev = t == XMLErrorReporter::ErrType_Warning ? 'W' : t == XMLErrorReporter::ErrType_Error ? 'E' : 'F';
@@ -75,14 +75,25 @@ struct XDomP : public XercesDOMParser, public ErrorHandler, public EntityResolve
     void error(const SAXParseException&) { nE++; }
     void fatalError(const SAXParseException&) { nF++; }
     void resetErrors() {}
+    // external identifiers are answered from the case's ENT table (system id as expanded by the parser against file:///xv/doc.xml, or the
+    // bare relative form); anything else gets an empty entity.  Both parses of a case see the same table.
     InputSource* resolveEntity(const XMLCh* const, const XMLCh* const sys) {
         static const XMLByte z[1] = { 0 };
+        std::string k = u8(sys);
+        if (cs) for (size_t i = 0; i < cs->ents.size(); i++) {
+            const std::string& name = cs->ents[i].first;
+            if (name == k || name == "file:///xv/" + k) {
+                served++;
+                return new MemBufInputSource((const XMLByte*)cs->ents[i].second.data(), cs->ents[i].second.size(), sys, false);
+            }
+        }
         return new MemBufInputSource(z, 0, sys ? sys : XMLUni::fgZeroLenString, false);
     }
 };
 
 // status line: <tag>\t<ok|fatal|exc>\t<nW>\t<nE>\t<nF>[\t<sev>:<domain>:<code>:<line>:<col>]*
 static bool doParse(XDomP& p, const std::string& data, const Case& c, const std::string& tag, const char* forcedEnc) {
+    p.cs = &c;
     p.setDoNamespaces(c.geti("ns", 1) != 0);
     p.setCreateEntityReferenceNodes(c.geti("eref", 0) != 0);
     p.setValidationScheme(XercesDOMParser::Val_Never);
@@ -94,6 +105,7 @@ static bool doParse(XDomP& p, const std::string& data, const Case& c, const std:
     xstr fe; if (forcedEnc && *forcedEnc) { fe = u16(forcedEnc); src.setEncoding(fe.c_str()); }
     bool thrown = !guarded(tag, [&]() { p.parse(src); });
     std::string l = tag + "\t" + (thrown ? "exc" : p.nF ? "fatal" : "ok") + "\t" + itos(p.nW) + "\t" + itos(p.nE) + "\t" + itos(p.nF);
+    if (p.served) gOut.line(tag + "SRV\t" + itos(p.served));
     for (size_t i = 0; i < p.errs.size(); i++)
         l += std::string("\t") + p.errs[i].sev + ":" + p.errs[i].dom + ":" + itos(p.errs[i].code) + ":" + itos((long long)p.errs[i].line) + ":" + itos((long long)p.errs[i].col);
     gOut.line(l);
